@@ -9,3 +9,5 @@ extern crate alloc;
 pub mod c19;
 #[cfg(kani)]
 pub mod c12;
+#[cfg(kani)]
+pub mod c13;
